@@ -188,10 +188,12 @@ def harness_violation(case, r):
         return ("long-lived region: " if case.get("kind") == "ctlwrap" else "concurrent release/open: ") + \
             r["e2erace"]["failures"][0]
     kind = case.get("kind", "ctl")
-    if kind in ("e2ev", "e2e", "conc", "e2eg") and (r.get("e2e") or r.get("hist") or r.get("e2eg")):
+    if kind in ("e2ev", "e2e", "conc", "e2eg", "e2ec") and (r.get("e2e") or r.get("hist") or r.get("e2eg") or r.get("e2ec")):
         # replayed / corpus cases of the extra phases: evaluate their own monitor
         try:
-            if kind == "e2eg":
+            if kind == "e2ec":
+                q = "e2ec_violations [%s : e2ec_case_t]" % e2ec_to_coq(case, r)
+            elif kind == "e2eg":
                 q = "e2eg_violations [%s : e2eg_case_t]" % e2eg_to_coq(case, r)
             elif kind == "e2ev":
                 q = "e2ev_violations [%s : e2ev_case_t]" % e2ev_to_coq(case, r)
@@ -457,9 +459,48 @@ def gen_e2eg(rng):
     return {"kind": "e2eg", "e2eg": {"ops": ops}}
 
 
+def gen_e2ec(rng):
+    """deferred commits: writer A (auto-commit off) on one group, a higher-authority writer B that comes and goes
+    (it never writes), explicit commits at scripted points: authorized write, lose control, rejected write, regain
+    control, commit ..."""
+    g = rng.choice([1, 2, 3])
+    a = rng.choice([50, 100])
+    ops = [{"op": "open", "w": 0, "subj": 1, "units": [[g, a]], "noac": True, "eou": False}]
+    nb, b_open = 1, None
+    for _ in range(rng.randrange(4, 12)):
+        x = rng.random()
+        if x < 0.4:
+            ops.append({"op": "write", "w": 0, "keys": [g], "n": rng.randrange(1, 4)})
+        elif x < 0.6:
+            ops.append({"op": "commit", "w": 0})
+        elif b_open is None:
+            ops.append({"op": "open", "w": nb, "subj": nb + 1, "units": [[g, a + rng.choice([1, 100])]],
+                        "noac": rng.random() < 0.7, "eou": False})
+            b_open = nb
+            nb += 1
+        else:
+            ops.append({"op": "close", "w": b_open})
+            b_open = None
+    if b_open is not None and rng.random() < 0.8:
+        ops.append({"op": "close", "w": b_open})
+    if rng.random() < 0.8:
+        ops.append({"op": "commit", "w": 0})
+    ops.append({"op": "close", "w": 0})
+    return {"kind": "e2ec", "e2ec": {"ops": ops}}
+
+
+def e2ec_to_coq(case, r):
+    body = e2eg_to_coq({"e2eg": case["e2ec"]}, {"e2eg": r["e2ec"]})
+    return cpair(body, clist([cZ(g) for g in r["e2ec"]["endgap"]]))
+
+
 def e2eg_to_coq(case, r):
     steps = []
     for o, x in zip(case["e2eg"]["ops"], r["e2eg"]["steps"]):
+        if o["op"] == "commit":
+            steps.append(cpair("GCommit %s" % cN(o["w"]),
+                               cpair(cN(EST.get(x["st"], 8)), cN(x["auth"]), clist([cZ(t) for t in x["ts"]]))))
+            continue
         if o["op"] == "open":
             co = "GOpen %s %s %s %s" % (cN(o["w"]), cN(o["subj"]), c_chans(o["units"]), cbool(o.get("eou")))
         elif o["op"] == "write":
@@ -542,6 +583,7 @@ def _phase(ctx, chk, kind, gen, tocoq, ctype, mism, viol, n, seedmul, what):
 
 
 E2EG_COUNTS = {"quick": 120, "thorough": 3000}
+E2EC_COUNTS = {"quick": 100, "thorough": 3000}
 E2EV_COUNTS = {"quick": 150, "thorough": 4000}
 EST = {"ok": 0, "unauth": 1, "valid": 2, "skip": 5, "config": 7, "other": 8, "err": 9}
 
@@ -675,6 +717,11 @@ def extra(ctx):
            E2EG_COUNTS[ctx.tier], 577,
            "cesium writers spanning several index groups: the authorized flag of a write or the persisted data "
            "contradicts the control state of the groups in the frame")
+    # ---- (a4) deferred commits: rejected writes must contribute nothing to what a later commit persists
+    _phase(ctx, chk, "e2ec", gen_e2ec, e2ec_to_coq, "e2ec_case_t", "e2ec_mismatches", "e2ec_violations",
+           E2EC_COUNTS[ctx.tier], 811,
+           "cesium writer with deferred commits: a rejected write shows up in what was committed (samples, domain "
+           "end or reported commit end), or an authorized flag contradicts the control state")
     # ---- (b) concurrent calls under the race detector (validation, not proof)
     binp, blog = vlib.go_build(MODULE, PKG, BIN, race=True)
     if binp is None:
